@@ -2132,5 +2132,25 @@ PROP = Prop(
                  "foreign object, unhashable list) is not counted as a wrong program",
                  "when the reference raises a non-arithmetic error (TypeError, …) nothing is "
                  "demanded of the generated code"],
+    level_text="Lean theorems: executing the generated Python AST equals the evaluator, value or "
+               "error (toAst_value, toAst_run_value_partial); importing it back gives the tree "
+               "(fromAst_toAst, nary_roundtrip); compile() takes the listed variables first and the "
+               "remaining free variables in name order for any number of them (arg_order_spec, "
+               "listed_first, perm, compile_args) and is unchanged by a pickle round trip (pickle_same); "
+               "the compiled SOURCE TEXT is the stringifier's text of the wrapper-free tree "
+               "(compile_printer_strips_cse, strip_cse_value) and, read under Python's own precedence "
+               "table, groups as the tree does on the decidable fragment InFragmentPy "
+               "(compile_source_groups_partial / _current; exactly 40 bad (position, child) pairs = "
+               "known findings and listed non-defects). T-gen: operator maps, every handler of "
+               "PymbolicToASTMapper / ASTToPymbolic, CompileMapper overrides and the "
+               "CompiledExpression protocol are re-read from the source on every run and the models "
+               "are proved equal to the table interpreters (toAst/fromAst/compileModel_eq_table_current).",
+    level_note="Partial: what and/or/min/max compute on the source path, n-ary | ^ & and or with != 2 "
+               "operands, keyword calls / floats / slices on the AST path are judged by executing "
+               "oracles only (CPython eval/exec of the generated code). Trusted: Lean kernel; CPython's "
+               "ast constructors and ast.unparse; the reader extract/codegen.py (tied by table-run).",
+    technique="Lean 4 proofs about AST export/import and compile models + regenerated handler tables with "
+              "interpreter-equals-model theorems + Python precedence table (decide) + differential "
+              "correspondence with CPython eval/exec as executing oracle",
     design_ref="DESIGN.md §4 C13",
 )
